@@ -15,7 +15,28 @@ def lib_hash():
     return h.hexdigest()[:12]
 
 
+def replay_override(ctx, key, items, prepare=None):
+    """Replay mode (./check <id> --replay <file>): the stream consists of the input recorded in the replay file (under
+    `key`: "history" or "job", also inside the `unconfirmed` entries of an obligation file) instead of the generated
+    inputs; a stream whose kind of input the file does not carry is empty."""
+    rp = getattr(ctx, "replay", None)
+    if not rp:
+        return items
+    d = json.load(open(rp))
+    found = []
+    for r in [d.get("replay") or {}] + [(u.get("replay") or {}) for u in d.get("unconfirmed", [])]:
+        if isinstance(r, dict) and key in r and r[key]:
+            x = json.loads(json.dumps(r[key]))
+            if key == "history" and isinstance(r.get("fault"), dict) and "call" in r["fault"]:
+                c = x["calls"][r["fault"]["call"]]
+                c.setdefault("fault", {"seam": r["fault"]["seam"], "k": r["fault"]["k"]})
+            found.append(prepare(x) if prepare else x)
+    return found
+
+
 def cache_get(ctx, name):
+    if getattr(ctx, "replay", None):
+        return None, os.path.join(CACHE, "replay-%s-%d.json" % (name, os.getpid()))
     key = "%s-%s-%s-%s-%s" % (name, repo_tree_hash(), lib_hash(), ctx.seed, ctx.tier)
     p = os.path.join(CACHE, key + ".json")
     if os.path.exists(p) and not os.environ.get("VERIF_NOCACHE"):
@@ -27,6 +48,8 @@ def cache_get(ctx, name):
 
 
 def cache_put(p, data):
+    if os.path.basename(p).startswith("replay-"):
+        return
     os.makedirs(CACHE, exist_ok=True)
     # keep the cache small: drop older entries of other trees
     files = sorted(glob.glob(os.path.join(CACHE, "*.json")), key=os.path.getmtime)
@@ -164,6 +187,7 @@ def fs_stream(ctx):
     hs += subtree_histories()
     hs += fs_histories(ctx, 40 if quick else 400, 16 if quick else 40, ops_level=True)
     hs += fs_histories(ctx, 30 if quick else 300, 14 if quick else 30, ops_level=False)
+    hs = replay_override(ctx, "history", hs, lambda h: dict(h, obs=FS_OBS))
     res = hist.run_many(hs)
     data = [dict(h=h, res=r, rc=rc, err=err) for h, (r, rc, err) in zip(hs, res)]
     cache_put(p, data)
